@@ -141,7 +141,7 @@ theorem endOfAuthorityB_spec (c : Ctx) (W : c.Wf) (p : Nat) (sp : Bool) (h1 : c.
       (c.D p).dropWhile (fun x => !(if sp = true then isSpecialAuthorityEnd else isAuthorityEnd) x) = c.D eoa) := by
   unfold endOfAuthorityB
   upsimp
-  refine R.sat_mono (findIf_spec c.a c.first c.last _ W.hl (c.last - p) p h1 (by omega)) ?_
+  refine R.sat_mono (findIf_specV c.a c.first c.last _ W.hl (c.last - p) p h1 (by omega)) ?_
   intro q ⟨q1, q2, q3, q4⟩
   have hasc : ∀ x, (!(if sp = true then isSpecialAuthorityEnd else isAuthorityEnd) x) = false → x < 0x80 := by
     intro x hx
